@@ -11,7 +11,7 @@
    the filtered read is the concatenation of the rows of those row groups and contains every
    satisfying row of the dataset.  A NULL/NaN cell satisfies nothing (weakest reading).
    Cells/constants are integers (floats are scaled dyadics, timestamps their integer value, booleans
-   0/1); str cells are covered by the tie and the oracle only.                                        *)
+   0/1) or str (lexicographic order of the text, what Python's str comparison is).                    *)
 From Coq Require Import ZArith List String Bool.
 From Pq Require Import Base.PyVal Impl.Filter Impl.FilterLeaf Proofs.PyValProofs Proofs.FilterProofs Proofs.FilterLeafProofs.
 Import ListNotations.
@@ -19,7 +19,8 @@ Open Scope string_scope.
 Open Scope Z_scope.
 
 (* every operator: a "skip" answer of filter_val is right for every cell inside valid bounds
-   (bounds absent / scalar / length-1 ndarray; scalar constant or list of constants) *)
+   (bounds absent / scalar / length-1 ndarray; scalar constant or list of constants; integer cells
+   against integer constants, str cells against str constants) *)
 Theorem C05_leaf_sound :
   forall op c vmin vmax x, In op ops -> covered op c vmin vmax x ->
     ok_true (filter_val (PStr op) c vmin vmax) = true -> sat op x c = false.
@@ -76,9 +77,10 @@ Example C05_nonvacuous :
     (Dnf [[("x", "==", PInt 9)]; [("x", "not in", ints [0;1;2;3;4]); ("x", ">", PInt 4)]])
   = Ok [5;6;7;8;9;3;11]
   /\ ok_true (filter_val (PStr "==") (PInt 9) (PInt 0) (PInt 4)) = true
-  /\ covered "==" (PInt 9) (PInt 0) (PInt 4) (PInt 2).
+  /\ covered "==" (PInt 9) (PInt 0) (PInt 4) (PInt 2)
+  /\ ok_true (filter_val (PStr "in") (strs ["x"; "q"]) (PStr "a") (PArr [PStr "d"])) = true.
 Proof.
-  split; [vm_compute; reflexivity|split; [vm_compute; reflexivity|]].
-  exists 2. split; [reflexivity|split; [left; split; [left; reflexivity|exists 9; reflexivity]|split]];
+  split; [vm_compute; reflexivity|split; [vm_compute; reflexivity|split; [|vm_compute; reflexivity]]].
+  left. exists 2. split; [reflexivity|split; [left; split; [left; reflexivity|exists 9; reflexivity]|split]];
   right; [exists 0|exists 4]; (split; [left; reflexivity|discriminate]).
 Qed.
